@@ -29,8 +29,9 @@ type Exec struct {
 	nframes       int
 	Notes         []string
 	lemmaAxioms   []*Term
-	inst          string    // type instance of a generic function under verification ("jsonNode")
-	derived       *Contract // "derived from": the source contract whose call stands for the body
+	inst          string          // type instance of a generic function under verification ("jsonNode")
+	derived       *Contract       // "derived from": the source contract whose call stands for the body
+	trivialSeen   map[string]bool // names of obligations whose goal was syntactically true on some path (recorded once)
 	measure0      []measureComp
 	NoTermination bool
 	prodSubj      []*Val // closure producing a stream: the subjects (its YieldsArgs at entry)
@@ -62,6 +63,19 @@ func (x *Exec) emit(st *St, t oblTemplate, extra []*Term, goal *Term) {
 	}
 	switch goal.Op {
 	case "true":
+		// A goal that is syntactically true on this path needs no solver, but its name is recorded: the obligation
+		// baseline must not report a clause as "no longer generated" because an equivalent body makes it trivial.
+		name := t.name
+		if name == "" {
+			name = x.Fn.Key + "/" + t.kind + "#" + t.label
+		}
+		if !x.trivialSeen[name] {
+			if x.trivialSeen == nil {
+				x.trivialSeen = map[string]bool{}
+			}
+			x.trivialSeen[name] = true
+			x.Obls = append(x.Obls, &Obligation{Name: name, Func: x.Fn.Key, Kind: t.kind, Label: t.label, Props: t.props, Pos: t.pos, Clause: t.clause, Goal: True})
+		}
 		return
 	case "and":
 		for _, a := range goal.Args {
